@@ -38,9 +38,11 @@ func (c *Ctx) invariant(name string, rules ...ruleFn) (bool, string) {
 	return out.ok, out.why
 }
 
-func (c *Ctx) invNT() (bool, string)  { return c.invariant("INV-NT", ruleREDBAL, rulePARPUSH) }
-func (c *Ctx) invLEX() (bool, string) { return c.invariant("INV-LEX", ruleLEXWRITE, ruleLEXDEPTH, ruleLEXTOK) }
-func (c *Ctx) invPH() (bool, string)  { return c.invariant("INV-PH", rulePHLINEARcore) }
+func (c *Ctx) invNT() (bool, string) { return c.invariant("INV-NT", ruleREDBAL, rulePARPUSH) }
+func (c *Ctx) invLEX() (bool, string) {
+	return c.invariant("INV-LEX", ruleLEXWRITE, ruleLEXDEPTH, ruleLEXTOK)
+}
+func (c *Ctx) invPH() (bool, string) { return c.invariant("INV-PH", rulePHLINEARcore) }
 
 // assumption table: construct key (function|construct) -> reason. Each entry is a dead or
 // foreign-only path, reviewed by hand.
@@ -62,10 +64,15 @@ func (c *Ctx) panicDischargers(r *Report, reach map[*ssa.Function]bool) []panicD
 		}
 	}
 	isLexMethod := func(f *ssa.Function) bool {
-		if lr.Err != "" || f.Signature.Recv() == nil {
+		if lr.Err != "" || len(f.Params) == 0 {
 			return false
 		}
-		t := f.Signature.Recv().Type()
+		// a method of the lexer, or a function of package lex whose first parameter is the lexer (the
+		// state functions)
+		if f.Signature.Recv() == nil && fnPkgPath(f) != pkgLex {
+			return false
+		}
+		t := f.Params[0].Type()
 		if p, ok := t.(*types.Pointer); ok {
 			t = p.Elem()
 		}
